@@ -1,5 +1,5 @@
 """C05 - runtime faults are detected exactly, first, and terminally"""
-import suites, gen_special
+import suites, gen_special, hidlib
 from props.common import TRUSTED_BASE, ASSUMPTIONS as _A
 
 ID = 'C05'
@@ -44,6 +44,40 @@ def run(ctx):
     if ctx.quick: big = [b for b in big if b[3] == 2]
     suites.differential(ctx, big, None, label='huge-stacks')
     ctx.stats['huge_stack_configurations'] = len(big)
+    # a VLA declared after stack-allocated array literals of the same block, with little stack left: the remaining-space guard must
+    # account for what the block has already taken - impossible lengths fault at every stack size, possible ones exactly when they fit
+    tightv = []
+    for w in (2, 3):
+        for el in ('byte', 'int', 'bool'):
+            for nl in (1, 3, 6, 9):
+                lit = ', '.join(['n'] + [str(k) for k in range(2, nl + 1)])
+                src = ('empty @is_you(int n) { write("pre "); int[] lit = [%s]; %s v[n]; write(v.length); write(lit[0]); write(" post"); }' % (lit, el))
+                src2 = ('empty @is_you(int n) { write("pre "); int[] lit = [%s]; { int[] more = [n, n]; %s v[n]; write(v.length); write(more[1]); } write(lit[0]); write(" post"); }' % (lit, el))
+                H = 1 << (8 * w - 1)
+                for st in ((10, 14, 18, 22, 26, 30, 40, 60) if not ctx.quick else (12, 18, 24, 30, 44)):
+                    for n in (-1, -8, -100, H - 1, H // 2 + 7, 3000, 1, 4, 9, 17, 33):
+                        tightv.append(('tightvla_%s_w%d_l%d_s%d_%d' % (el, w, nl, st, len(tightv)), src if len(tightv) % 3 else src2, [str(n)], w, st, False, 200000))
+    if ctx.quick: tightv = [t for i, t in enumerate(tightv) if i % 2 == 0]
+    tcases, _ = suites.compile_cases(tightv)
+    tres = hidlib.run_parallel(tcases)
+    tm = {t[0]: t for t in tightv}
+    judged = tbad = 0
+    for c in tcases:
+        r = tres.get(c['id'], {})
+        if 'vm' not in r or 'src' not in r: continue
+        vm, ref = r['vm'], r['src']
+        # the entry check of the function may refuse the whole frame first (no output at all): nothing to judge then
+        if not vm.output.startswith(b'pre ') or 'stack_overflow' not in ref.flags: continue
+        judged += 1
+        if vm.output != ref.output or vm.flags != ref.flags:
+            tbad += 1
+            if tbad <= 3:
+                t = tm[c['id']]
+                ctx.violations.append(dict(what='a variable-length array of impossible length declared after array literals of the same block is not refused '
+                                           'when the stack is nearly full', kind='DIFF', source=t[1], args=t[2], config=dict(w=t[3], stack=t[4], unchecked=False),
+                                           vm=suites.describe(vm), reference=suites.describe(ref)))
+    ctx.stats['vla_after_literals_tight'] = dict(runs=len(tcases), judged=judged, findings=tbad)
+    ctx.say('vla after literals at tight stacks: %d runs, %d judged (entry check passed, length impossible), %d findings' % (len(tcases), judged, tbad))
     suites.conformance(ctx, jobs[:ctx.budget(400, 3000)])
     tally, bad, res = suites.differential(ctx, jobs, None, label='fault-injection', must_compile_prefixes=('f2_', 'f3_', 'f4_', 'f8_'))
     flags = {}
